@@ -25,7 +25,8 @@
      match             every arm: gpat_b false at the scrutinee type, body checked in the context of
                        the bindings, body type = annotation; program: enums_small
      - ! casts, binary operators   as [sc_op] / TSemSemStmt.v (scalar types of width 8/16/32/64,
-                       equal annotations; `*` with a literal operand excluded)
+                       equal annotations); `*` with a literal operand: [scf_op] (the side conditions
+                       of Compile/TSemSemMul.v, or the rewrite does not fire)
      if                condition bool, both branch types = annotation
      lo..hi            annotation = [uN; hi - lo], hi <= 2^N
      let p = e         gpat_b true at e_ty e; let mut; x.accs = e: x mutable, every accessor
@@ -39,7 +40,7 @@ From Coq Require Import Lia ZArith.
 From GV Require Import Base.Util Base.Bits Base.BitsProofs Lang.Ast Lang.Wt Lang.ValTy Lang.WtShape
   Gadgets.Gadgets Gadgets.GadgetSpec Gadgets.Arith Panic.PanicRec Panic.PanicSem Compile.Lower
   Compile.TSem Compile.TSemFacts Compile.TSemArith1 Compile.TSemArith2 Compile.TSemControl
-  Compile.TSemSemExpr Compile.ValEnc Compile.TSemSticky Compile.TSemSemStmt Compile.TSemSemAgg.
+  Compile.TSemSemExpr Compile.ValEnc Compile.TSemSticky Compile.TSemSemStmt Compile.TSemSemMul Compile.TSemSemAgg.
 From GV Require Lang.Sem.
 Local Open Scope N_scope.
 
@@ -476,12 +477,24 @@ End PatBSound.
 
 Definition ty_fits_b (P : program) (t : ty) : bool := ty_ok (pred Sem.ty_fuel) P t.
 
+(* binary operators: the scalar operators of [sc_op] (a product there has no literal operand), or a
+   product with a literal operand: an ordinary checked product where the compiler's repeated-addition
+   rewrite does not fire, else the side conditions of Compile/TSemSemMul.v ([mul_node_ok]) *)
+Definition scf_op (o : binop) (x y : expr) (m : meta) (t : ty) : bool :=
+  sc_op o x y t ||
+  match o, t with
+  | OMul, TInt _ b =>
+      sty_eqb (e_ty x) t && sty_eqb (e_ty y) t &&
+      match mul_rewrite x y m t with None => ok_width b | Some _ => mul_node_ok x y m t end
+  | _, _ => false
+  end.
+
 Fixpoint scf_expr (fuel : nat) (P : program) (g : tenv) (e : expr) {struct fuel} : bool :=
   match fuel with
   | O => false
   | S f =>
     match e with
-    | Ex ei _ t =>
+    | Ex ei m t =>
       match ei with
       | ETrue | EFalse => ty_beq t TBool
       | ENumU n _ => match t with TInt _ _ => lit_fits t (Z.of_N n) | _ => false end
@@ -562,7 +575,7 @@ Fixpoint scf_expr (fuel : nat) (P : program) (g : tenv) (e : expr) {struct fuel}
           | _ => false
           end
       | ENot e1 => scalar_ty t && ty_beq (e_ty e1) t && scf_expr f P g e1
-      | EOp o x y => scf_expr f P g x && scf_expr f P g y && sc_op o x y t
+      | EOp o x y => scf_expr f P g x && scf_expr f P g y && scf_op o x y m t
       | EBlock b => match scf_block f P ([] :: g) b with Some tb => ty_beq tb t | None => false end
       | ECall _ _ => false
       | EJoin _ _ _ _ => false
@@ -738,10 +751,28 @@ Section MainF.
     | H : ty_beq _ _ = true |- _ => apply ty_beq_eq in H
     end.
 
-  Lemma op_step_f f g o x y m t :
-    sc_op o x y t = true ->     AgE' f g x -> AgE' f g y -> AgE' (S f) g (Ex (EOp o x y) m t).
+  Lemma mul_step_f f g x y m t :
+    match t with
+    | TInt _ b =>
+        sty_eqb (e_ty x) t && sty_eqb (e_ty y) t &&
+        match mul_rewrite x y m t with None => ok_width b | Some _ => mul_node_ok x y m t end
+    | _ => false
+    end = true ->
+    AgE' f g x -> AgE' f g y -> AgE' (S f) g (Ex (EOp OMul x y) m t).
   Proof.
-    intros Hop IHx IHy.
+    intros Hop IHx IHy. destruct t as [|sg b| | | |]; try discriminate Hop. bsplit. eqs.
+    destruct (mul_rewrite x y m (TInt sg b)) as [r|] eqn:Hm.
+    - apply (mul_lit_node_b P VRa VRa_elim VRa_intro); try assumption.
+      unfold mul_operand. destruct (mul_lit_info x y m (TInt sg b)) as [[[[] ?] ?]|]; assumption.
+    - apply (mul_plain_node P VRa VRa_elim VRa_intro f g x y m (TInt sg b) (TInt sg b)); try assumption.
+      apply int_agrees; [assumption|left; split; reflexivity].
+  Qed.
+
+  Lemma op_step_f f g o x y m t :
+    scf_op o x y m t = true -> AgE' f g x -> AgE' f g y -> AgE' (S f) g (Ex (EOp o x y) m t).
+  Proof.
+    intros Hop IHx IHy. unfold scf_op in Hop. apply orb_prop in Hop. destruct Hop as [Hop|Hop];
+      [|destruct o; try discriminate Hop; now apply mul_step_f].
     destruct o; cbn [sc_op] in Hop.
     (* arithmetic and bitwise *)
     1-8: destruct t as [|sg b| | | |]; try discriminate Hop; bsplit; try discriminate; eqs;
